@@ -153,7 +153,9 @@ def ufunc_count_case(draw):
     return {"kind": "ufunc-axis-count", "n": draw(st.integers(2, 4)), "route": draw(st.sampled_from(["function", "method", "decorator"])),
             "out": draw(st.sampled_from(["first", "scalar"])), "three": draw(st.booleans()),
             "names": draw(st.permutations(["a", "b", "c", "X", "Y", "lon"]))[:3], "repeat_of": draw(st.sampled_from([0, 1])),
-            "pos": draw(st.sampled_from(["center", "left"]))}
+            "pos": draw(st.sampled_from(["center", "left"])),
+            # which wrong number: one grid axis for two signature axes, or one `other_component` for several inputs
+            "wrong": draw(st.sampled_from(["same-axis-twice", "same-axis-twice", "one-other-component", "one-other-component-in-a-list"]))}
 
 
 def check_ufunc_count(case, ctx):
@@ -184,17 +186,17 @@ def check_ufunc_count(case, ctx):
             tot = tot * x.sum(-1)[..., None] if case["out"] == "first" else tot * x.sum(-1)
         return tot
 
-    def call(real):
+    def call(real, **extra):
         das = [xr.DataArray(np.arange(1.0, n + 1.0) * (i + 1), dims=[gc[r][pos]]) for i, r in enumerate(real)]
         axis = [(r,) for r in real]
         with warnings.catch_warnings():
             warnings.simplefilter("ignore")
             try:
                 if case["route"] == "function":
-                    return ("ok", apply_as_grid_ufunc(func, *das, axis=axis, grid=grid, signature=sig))
+                    return ("ok", apply_as_grid_ufunc(func, *das, axis=axis, grid=grid, signature=sig, **extra))
                 if case["route"] == "method":
-                    return ("ok", grid.apply_as_grid_ufunc(func, *das, axis=axis, signature=sig))
-                return ("ok", as_grid_ufunc(signature=sig)(func)(grid, *das, axis=axis))
+                    return ("ok", grid.apply_as_grid_ufunc(func, *das, axis=axis, signature=sig, **extra))
+                return ("ok", as_grid_ufunc(signature=sig)(func)(grid, *das, axis=axis, **extra))
             except Exception as e:  # noqa: BLE001
                 return ("raise", type(e).__name__)
 
@@ -203,11 +205,21 @@ def check_ufunc_count(case, ctx):
     if call(good)[0] != "ok":
         ctx.note("unedited_call_does_not_return")
         return {"nontrivial": False, "classes": ["unedited-refused"] + classes}
-    bad = list(good)
-    bad[-1] = good[case["repeat_of"] % (k - 1)]   # the last input names the axis of an earlier one
-    got = call(bad)
+    wrong = case.get("wrong", "same-axis-twice")
+    if wrong == "same-axis-twice":
+        bad = list(good)
+        bad[-1] = good[case["repeat_of"] % (k - 1)]   # the last input names the axis of an earlier one
+        got = call(bad)
+        edit = "one grid axis supplied for two distinct signature axes"
+    else:
+        # one partner component for several inputs: which input it belongs to is not defined (one per input, or none)
+        partner = {"Y": xr.DataArray(np.ones(n), dims=[gc["Y"][pos]])}
+        got = call(good, other_component=partner if wrong == "one-other-component" else [partner])
+        bad = good
+        edit = "a single other_component for several inputs"
+        classes[0] = "edit:ufunc-one-other-component-for-several-inputs"
     if got[0] == "ok":
-        raise Violation("an ill-posed request was answered instead of refused", edit="one grid axis supplied for two distinct signature axes",
+        raise Violation("an ill-posed request was answered instead of refused", edit=edit,
                         signature=sig, axis=[[r] for r in bad], route=case["route"], answer=list(getattr(got[1], "dims", ())))
     return {"nontrivial": True, "classes": classes + ["raised:" + got[1]]}
 
